@@ -57,12 +57,16 @@ func (c Collection) TryEqual(other Collection) (bool, bool) {
 		if !okOne {
 			continue // structurally equal complex elements: keep comparing the remaining pairs
 		}
-		primitiveOne, err := From(c[i])
-		if err != nil {
-			return false, true
-		}
-		primitiveTwo, err := From(other[i])
-		if err != nil {
+		primitiveOne, errOne := From(c[i])
+		primitiveTwo, errTwo := From(other[i])
+		if errOne != nil || errTwo != nil {
+			// an element that has no System value (a Quantity without a value):
+			// it equals what is structurally the same element
+			elementOne, isOne := c[i].(fhir.Base)
+			elementTwo, isTwo := other[i].(fhir.Base)
+			if errOne != nil && errTwo != nil && isOne && isTwo && proto.Equal(elementOne, elementTwo) {
+				continue
+			}
 			return false, true
 		}
 		primitiveOne = Normalize(primitiveOne, primitiveTwo)
